@@ -41,6 +41,7 @@ type DB struct {
 	cancelBgWorker context.CancelFunc
 	closeWg        sync.WaitGroup
 	maintenanceMu  sync.Mutex // Ensures there only one maintenance task running at a time.
+	closed         bool       // Set once Close has released the directory.
 }
 
 type dbMeta struct {
@@ -369,6 +370,10 @@ func (db *DB) Close() error {
 	verifYield("close.waited")
 	db.mu.Lock()
 	defer db.mu.Unlock()
+	if db.closed {
+		// The directory doesn't belong to this DB any more - don't write the metadata again.
+		return os.ErrClosed
+	}
 	if err := db.writeMeta(); err != nil {
 		return err
 	}
@@ -381,6 +386,7 @@ func (db *DB) Close() error {
 	if err := db.lock.Unlock(); err != nil {
 		return err
 	}
+	db.closed = true
 	return nil
 }
 
